@@ -13,6 +13,7 @@ Step obligation (one execution of the real body):
 Postconditions of the call (X the returned tensor, r the residual the loop ended with):
       shape / dtype of X are those of rhs;   rhs, A and the initial guess are not written
       rhs[i, c] - sum_j A[i, j] X[j, c]  ==  rhs_norm[c] * r[i, c]                                        (X's TRUE residual)
+      a column is masked as a zero column  <=>  its norm is below eps
       no NumericalWarning  ==>  mean_c m_c * ||r[:, c]||  <  tolerance     (m_c = 0 for zero columns)     (silent finish => tolerance met)
                                 or the loop was skipped because every column was below stop_updating_after at the start
       the loop ends without reaching the tolerance (budget n_iter > 0 used up, for either value of terminate_cg_by_size)  ==>  a NumericalWarning is emitted
@@ -195,8 +196,20 @@ def _run(br: int, precond: bool, with_guess: bool, shard=None, cover_only=False)
             kw["initial_guess"] = SymTensor.fresh("x0", bs + (n, p), T.float64)
             state["x0"] = kw["initial_guess"]
         state["args"] = dict(tol=tol, eps=eps, sua=sua, max_iter=max_iter, max_tri=max_tri)
+        state["norms"] = []
+        real_norm = SymTensor.norm
+
+        def norm_rec(self_, *a_, **k_):  # ghost: remember every norm the code computes (snapshot of its value at that moment)
+            r_ = real_norm(self_, *a_, **k_)
+            state["norms"].append(r_.elem_fn())
+            return r_
+        SymTensor.norm = norm_rec
+        state["restore_norm"] = real_norm
         settings.terminate_cg_by_size._state = sym.lift(z3.Bool(c.fresh_name("terminate_cg_by_size")))  # both values of the flag are explored
-        return cut_fn(A, rhs, n_tridiag=0, tolerance=tol, eps=eps, stop_updating_after=sua, max_iter=max_iter, max_tridiag_iter=max_tri, **kw)
+        try:
+            return cut_fn(A, rhs, n_tridiag=0, tolerance=tol, eps=eps, stop_updating_after=sua, max_iter=max_iter, max_tridiag_iter=max_tri, **kw)
+        finally:
+            SymTensor.norm = real_norm
 
     def post(c, outcome, value):
         if cover_only:
@@ -231,6 +244,10 @@ def _run(br: int, precond: bool, with_guess: bool, shard=None, cover_only=False)
         scale = rnorm.at(*b, z3.IntVal(0), cc)
         # (1) the code's scaling is never 0 (it is ||rhs[:, c]||, or 1 where that is below eps: rhs.norm(...).masked_fill_(lt(eps), 1))
         c.prove(f"{base}/return/rhs_norm > 0", z3.Implies(inb, scale > 0))
+        # (1b) which columns are treated as zero: exactly those whose norm (the first norm the code computes: of rhs) is below eps
+        if state["norms"] and "rhs_is_zero" in env:
+            n0 = state["norms"][0](tuple(b) + (z3.IntVal(0), cc))
+            c.prove(f"{base}/return/zero-column mask <=> ||rhs[:, c]|| < eps", z3.Implies(inb, env["rhs_is_zero"].at(*b, z3.IntVal(0), cc) == (n0 < sym.as_real(a["eps"]))))
         # (2) the loop invariant at the state the loop was left with (instance of the assumed / just re-proved invariant)
         if fin["how"] == "break" and fin.get("head"):
             # the loop was left from inside an iteration: the state is "one body execution after a head state" -> the same four steps
@@ -341,6 +358,16 @@ def replay(precond, with_guess):
                 relc = ((rhs - A @ X).norm(dim=-2, keepdim=True) / rhs.norm(dim=-2, keepdim=True).clamp_min(1e-30)).masked_fill(rhs.norm(dim=-2, keepdim=True) < 1e-10, 0)
                 if not bool(relc.max() < 1e-3):  # (far above the accuracy floor of about 1e-5 the property allows)
                     fails.append(f"n={n} p={p} batch={batch} tol={tol} max_iter={mi}: well-conditioned SPD system, returned X has relative residual {float(relc.max()):.2e}")
+            if n == 5 and mi >= 200 and not by_size and not with_guess:  # a tiny (but not zero: >= eps) column is solved like any other when eps is lowered (zero initial guess)
+                rt = rhs.clone()
+                rt[..., 0] = rt[..., 0] + 1.0  # (column 0 was zeroed above)
+                rt[..., 0] = rt[..., 0] * 1e-13
+                with warnings.catch_warnings(record=True):
+                    warnings.simplefilter("always")
+                    Xt = linear_cg(A.matmul, rt, tolerance=tol, eps=1e-20, max_iter=mi, max_tridiag_iter=0, **kw)
+                relt = (rt - A @ Xt).norm(dim=-2)[..., 0] / rt.norm(dim=-2)[..., 0]
+                if not bool(relt.max() < 1e-3):
+                    fails.append(f"n={n} batch={batch} eps=1e-20: a column of norm {float(rt.norm(dim=-2)[..., 0].max()):.1e} (>= eps) came back with relative residual {float(relt.max()):.2e} (treated as a zero column)")
             silent = not any(issubclass(x.category, NumericalWarning) for x in w)
             nrm = rhs.norm(dim=-2, keepdim=True)
             rel = ((rhs - A @ X).norm(dim=-2, keepdim=True) / nrm.masked_fill(nrm < 1e-10, 1)).masked_fill(nrm < 1e-10, 0)
